@@ -101,6 +101,24 @@ def coq_edges(c, obs):
             for (_k, i, e1, e2, e3) in obs]
 
 
+def judge_edges(c, op, cfg, raw):
+    """the three edges are the boundary rows of the control net, copied (exact): edge 1 = the bottom row (k = 0), edge 2 = the
+    points with i = 0 from the second corner to the third, edge 3 = the points with j = 0 from the third corner back to the first"""
+    if "exc" in raw:
+        return "raised %s: %s" % (raw["exc"], raw.get("msg", "")[:100])
+    res = dec_res(raw["ok"])
+    d = c["d"]
+    for i, row in enumerate(c["rows"]):
+        want = [[row[oq.tri_index(d, d - j, j, 0)] for j in range(d + 1)],
+                [row[oq.tri_index(d, 0, d - k, k)] for k in range(d + 1)],
+                [row[oq.tri_index(d, k_, 0, d - k_)] for k_ in range(d + 1)]]
+        for e in range(3):
+            got = list(res[e][i])
+            if got != want[e]:
+                return "edge %d, coordinate %d: %s, the control net has %s there" % (e + 1, i, [float(x) for x in got], [float(x) for x in want[e]])
+    return None
+
+
 def judge_pts(c, triples, out):
     d = c["d"]
     for i, row in enumerate(c["rows"]):
@@ -220,9 +238,10 @@ def run(ctx):
     small = [c for c in cases if c["d"] <= 20]
     correspond(ctx, "edges", small,
                [("Triangle.edges", lambda c: [enc_arr(c["rows"])], edges_out),
+                ("Triangle.edges_after_use", lambda c: [enc_arr(c["rows"])], edges_out),
                 ("shim.tri_compute_edge_nodes", lambda c: [enc_arr(c["rows"]), c["d"]], edges_out),
                 ("hazmat.tri_compute_edge_nodes", lambda c: [enc_arr(c["rows"]), c["d"]], edges_out)],
-               coq_edges, HEADER, "chk_tri_edges", nontrivial=nontriv)
+               coq_edges, HEADER, "chk_tri_edges", judge=judge_edges, nontrivial=nontriv)
     return finish(ctx, "theorems about the Gallina model of triangle_helpers.evaluate_barycentric / compute_edge_nodes; "
                   "the compiled evaluator is tied by correspondence (degrees up to 40); rounding allowance = the PROVED bound ((1+u)^(4d+4)-1) sum|b||v| of the standard-model theorem "
                   "(for the Fortran text the proved allowance is validated on the stream, not proved)",
